@@ -141,15 +141,16 @@ class Assume:
         return [i for i in self.fa.nodes(astnode) if i in r]
 
     # -- reaching definitions restricted to the feasible edges -----------------------------------
-    def flow(self, seeds=None):
+    def flow(self, seeds=None, removed=()):
         """IN sets of a reaching-definitions analysis over the feasible sub-graph.  `seeds` = {node: defs}
         starts the analysis at those nodes (with those definitions flowing in) instead of the entry.  A
-        statement that raises has not assigned: along 'exc' edges the state *before* the statement flows."""
+        statement that raises has not assigned: along 'exc' edges the state *before* the statement flows.
+        `removed` nodes are not entered (e.g. a loop head, to stay inside one iteration)."""
         fa = self.fa
         cfg, df = fa.cfg, fa.df
         if seeds is None:
             seeds = {cfg.entry: set()}
-        region = self.reach(list(seeds))
+        region = self.reach(list(seeds), removed=removed)
         IN = {n: set() for n in region}
         OUT = {n: set() for n in region}
         for n, ds in seeds.items():
